@@ -158,6 +158,20 @@ def box_arg(q, nb):
     return list(l), np.array(l, dtype=int), inrange, False
 
 
+def _compare(got, boxes, bsingle, plot, lv, exp_f, fsingle):
+    gots = [got] if bsingle else got
+    if not bsingle and not isinstance(gots, (list, tuple)):
+        return f"expected a list of boxes, got {type(got).__name__}"
+    if len(gots) != len(boxes):
+        return f"returned {len(gots)} boxes, expected {len(boxes)}"
+    for g, b in zip(gots, boxes):
+        full = plot.box_data(lv, b)
+        exp = full[..., int(exp_f)] if fsingle else full[..., exp_f]
+        if not isinstance(g, np.ndarray) or g.dtype != np.float64 or not refread.same_bits(g, exp):
+            return f"box {b} differs from the stored data (got shape {getattr(g, 'shape', None)}, expected {exp.shape})"
+    return None
+
+
 def check_case(case, ctx):
     from amr_kitchen import PlotfileCooker
     ctx.fresh()
@@ -199,12 +213,14 @@ def check_case(case, ctx):
         ctx.label("f:" + q["f"]["k"], "b:" + q["b"]["k"])
         if exp_f is not None and np.size(exp_f) and int(np.min(exp_f)) > 0:
             offset_sel = True
+        desc = f"query {qi} pck[{q['f']}][{lv}][{q['b']}]"
+        stream = None
         try:
-            got = qcall(lambda: pck[fobj][lv][bobj])
+            stream = qcall(lambda: pck[fobj][lv])
+            got = qcall(lambda: stream[bobj])
             raised = None
         except Exception as e:
             raised = e
-        desc = f"query {qi} pck[{q['f']}][{lv}][{q['b']}]"
         if raised is not None:
             if must:
                 v.append(f"{desc}: a listed selector form raised {type(raised).__name__}: {raised}")
@@ -212,21 +228,20 @@ def check_case(case, ctx):
         if not honourable:
             v.append(f"{desc}: cannot be honoured (numpy indexing refuses it) but returned {type(got).__name__} instead of raising")
             continue
-        # compare with the exact data
         boxes = [int(exp_b)] if bsingle else [int(x) for x in np.atleast_1d(exp_b)]
-        gots = [got] if bsingle else got
-        if not bsingle and not isinstance(gots, (list, tuple)):
-            v.append(f"{desc}: expected a list of boxes, got {type(got).__name__}")
+        msg = _compare(got, boxes, bsingle, plot, lv_eff, exp_f, fsingle)
+        if msg:
+            v.append(f"{desc}: {msg}")
             continue
-        if len(gots) != len(boxes):
-            v.append(f"{desc}: returned {len(gots)} boxes, expected {len(boxes)}")
+        # history: the same level stream object keeps answering correctly (a plain box read, then the query again)
+        try:
+            first = qcall(lambda: stream[0])
+            again = qcall(lambda: stream[bobj])
+        except Exception as e:
+            v.append(f"{desc}: re-reading through the same level object raised {type(e).__name__}: {e}")
             continue
-        for g, b in zip(gots, boxes):
-            full = plot.box_data(lv_eff, b)
-            exp = full[..., int(exp_f)] if fsingle else full[..., exp_f]
-            if not isinstance(g, np.ndarray) or not refread.same_bits(np.asarray(g, dtype="<f8"), exp) or g.dtype != np.float64:
-                shp = getattr(g, "shape", None)
-                v.append(f"{desc}: box {b} differs from the stored data (got shape {shp}, expected {exp.shape})")
-                break
+        msg = _compare(first, [0], True, plot, lv_eff, exp_f, fsingle) or _compare(again, boxes, bsingle, plot, lv_eff, exp_f, fsingle)
+        if msg:
+            v.append(f"{desc}: second read through the same level object: {msg}")
     ctx.nontrivial(nf >= 2 and ("scattered" in labs or "non-monotone" in labs or noncubic_box or offset_sel))
     return v
